@@ -281,8 +281,11 @@ def run(ctx: Ctx) -> None:
     ctx.partial += [
         "that code_block / fence content *is* the stated getLines call on the lines of its map, that fence markup + info is the "
         "opening line's text and hr markup the scanned run is PROVED for the modelled sub-parser (Props/C08b.lean mini_verbatim, "
-        "with cutOf_spec from cutLine_spec; model tied by the `miniblock` differential runs). For html_block, heading/list/quote "
-        "markup, ordered-list start/info and for code/fence inside containers (rules not modelled) it is decided by the oracle; "
+        "with cutOf_spec from cutLine_spec; model tied by the `miniblock` differential runs); inside containers (Props/C08c.lean "
+        "l_verbatim: quotes and lists nested to any depth) every code_block / fence content line is, after at most pad spaces, "
+        "a suffix of the source line its map points to — the nested runs see line entries whose text is the source line minus a "
+        "prefix (SufLines through quoteScan and listEnter) — fence markup+info is the tail of its opening line, hr markup is read off "
+        "the tail of its line. For html_block, heading/list/quote markup and ordered-list start/info it is decided by the oracle; "
         "the getLines, code-span and hr statements are theorems",
     ]
 
